@@ -30,22 +30,22 @@ type mutReq struct {
 // OpObs is what the harness observed on the real machine for one op line;
 // monitors work on these.
 type OpObs struct {
-	Line    string
-	Res     am.Result
-	ResStr  string
-	Active  []int
-	Clock   []uint64
-	QTick   uint64
-	QLen    int
-	Crash   string
-	Events  []Event
-	EI      int
-	Views   *Views
-	IsOp    bool
-	IsSub   bool
-	Closed  []int
+	Line     string
+	Res      am.Result
+	ResStr   string
+	Active   []int
+	Clock    []uint64
+	QTick    uint64
+	QLen     int
+	Crash    string
+	Events   []Event
+	EI       int
+	Views    *Views
+	IsOp     bool
+	IsSub    bool
+	Closed   []int
 	Canceled []int
-	Out     string // canonical output line
+	Out      string // canonical output line
 }
 
 type Event struct {
@@ -124,25 +124,25 @@ type Views struct {
 }
 
 type Runner struct {
-	Sch      *Schema
-	M        *am.Machine
-	mx       sync.Mutex
-	events   []Event
-	rules    []rule
-	counts   map[string]int
-	nbind    int
-	bound    int
-	Timeout  time.Duration
-	cancel   context.CancelFunc
-	tracerN  int
+	Sch     *Schema
+	M       *am.Machine
+	mx      sync.Mutex
+	events  []Event
+	rules   []rule
+	counts  map[string]int
+	nbind   int
+	bound   int
+	Timeout time.Duration
+	cancel  context.CancelFunc
+	tracerN int
 	// subscriptions
-	chans    []<-chan struct{} // index = id (0 unused)
-	kinds    []string          // "ch" | "ctx" | "sctx"
-	ctxs     map[int]context.Context
-	cancels  map[int]context.CancelFunc
-	nextId   int
-	nctx     int
-	uctx     map[int]context.Context
+	chans   []<-chan struct{} // index = id (0 unused)
+	kinds   []string          // "ch" | "ctx" | "sctx"
+	ctxs    map[int]context.Context
+	cancels map[int]context.CancelFunc
+	nextId  int
+	nctx    int
+	uctx    map[int]context.Context
 }
 
 type recTracer struct {
@@ -552,7 +552,10 @@ func (r *Runner) Step(line string) (obs OpObs) {
 				crash = "panic: " + fmt.Sprint(p)
 			}
 		}()
-		obs := &struct{ Res am.Result; IsOp bool }{IsOp: true}
+		obs := &struct {
+			Res  am.Result
+			IsOp bool
+		}{IsOp: true}
 		defer func() { res, isOp = obs.Res, obs.IsOp }()
 		args := am.A{"x": 1}
 		switch toks[0] {
